@@ -1,0 +1,52 @@
+//go:build verif
+
+// Verification hooks: thin exported wrappers around unexported functions.
+// Compiled only with `-tags verif`; they add no behaviour.
+
+package cmd
+
+import (
+	"github.com/coreruleset/crs-toolchain/v2/regex/processors"
+)
+
+// VerifProcessLine exposes the formatter's processLine.
+func VerifProcessLine(line []byte, indent int) ([]byte, int, error) {
+	return processLine(line, indent)
+}
+
+// VerifProcessFile exposes the formatter's processFile.
+func VerifProcessFile(filePath string, ctxt *processors.Context, checkOnly bool) error {
+	return processFile(filePath, ctxt, checkOnly)
+}
+
+// VerifUpperCaseLint exposes findUpperCaseCharacterClassOnIgnoreCaseFlag.
+func VerifUpperCaseLint(lines []string, iFlag bool) bool {
+	found, _ := findUpperCaseCharacterClassOnIgnoreCaseFlag(lines, iFlag)
+	return found
+}
+
+// VerifParseRuleId exposes parseRuleId and the values it sets.
+func VerifParseRuleId(arg string) (id string, fileName string, chainOffset uint8, err error) {
+	err = parseRuleId(arg)
+	return ruleValues.id, ruleValues.fileName, ruleValues.chainOffset, err
+}
+
+// VerifFindRootDirectory exposes findRootDirectory.
+func VerifFindRootDirectory(startPath string) (string, error) {
+	return findRootDirectory(startPath)
+}
+
+// VerifUpdateRegex exposes updateRegex.
+func VerifUpdateRegex(filePath string, ruleId string, chainOffset uint8, newRegex string) {
+	updateRegex(filePath, ruleId, chainOffset, newRegex)
+}
+
+// VerifReadCurrentRegex exposes readCurrentRegex.
+func VerifReadCurrentRegex(filePath string, ruleId string, chainOffset uint8) string {
+	return readCurrentRegex(filePath, ruleId, chainOffset)
+}
+
+// VerifValidateSemver exposes validateSemver.
+func VerifValidateSemver(version string) error {
+	return validateSemver(version)
+}
